@@ -166,8 +166,8 @@ fn many_functions_probe<T: Sc>(rep: &mut Report) {
     if T::NAME != "f64" {
         return; // certificates below are calibrated for f64
     }
-    for (h, weighted, mrhs) in [(12usize, false, false), (16, true, false), (12, true, true)] {
-        let n = 120usize;
+    // (65 / 101 / 151 functions: the decomposition needs more than a hundred sweeps)
+    for (h, weighted, mrhs, n) in [(12usize, false, false, 120usize), (16, true, false, 120), (12, true, true, 120), (32, false, false, 320), (50, true, true, 500), (75, false, false, 700)] {
         let model0 = FourierModel::<T>::new(n, h, 1.0);
         let m = 2 * h + 1;
         let s = if mrhs { 3 } else { 1 };
@@ -196,6 +196,15 @@ fn many_functions_probe<T: Sc>(rep: &mut Report) {
         rep.ok("C08", 0.0);
         for wv in [1.0f64, 0.93, 1.05] {
             let flav = format!("many functions probe M={} N={} S={} weighted={} w={}", m, n, s, weighted, wv);
+            if m > 40 {
+                // judged only where the decomposition itself is healthy (known finding D4)
+                let p0 = model0.phi64(wv);
+                let pw = DMatrix::from_fn(n, m, |i, j| T::of64(w.as_ref().map(|w| w[i].to64()).unwrap_or(1.0) * p0[(i, j)]));
+                if !svd_healthy(&pw) {
+                    rep.count("many_functions_probe_unhealthy_svd", 1);
+                    continue;
+                }
+            }
             let det = |what: &str, dv: f64| json!({"flavour": flav, "what": what, "dev": dv});
             seq.set_params(&[T::of64(wv)]);
             par.set_params(&[T::of64(wv)]);
@@ -261,7 +270,9 @@ fn many_functions_probe<T: Sc>(rep: &mut Report) {
                     if let (Some(fp), Some(fm)) = (f_at(&mut seq, wv + hstep), f_at(&mut seq, wv - hstep)) {
                         let fd = (fp - fm) / (2.0 * hstep);
                         let dg = (grad - fd).abs() / grad.abs().max(fd.abs()).max(1e-300);
-                        rep.check("C03", dg <= 1e-5, dg, || det("2 J^T r is not the derivative of the projected objective (central difference)", dg));
+                        // (the central difference itself is less accurate for the high harmonics of the large models)
+                        let lim = if m > 40 { 1e-4 } else { 1e-5 };
+                        rep.check("C03", dg <= lim, dg, || det("2 J^T r is not the derivative of the projected objective (central difference)", dg));
                     }
                     seq.set_params(&[T::of64(wv)]);
                 }
@@ -1256,6 +1267,14 @@ fn run_inst<T: Sc>(line: &Line, idx: usize, pools: &Pools, opts: &Opts, rep: &mu
             None
         };
         if let (Ok(mut twin), Ok(mut weighted)) = (twin, weighted) {
+            if idx % 3 == 1 {
+                // an update that the model rejects (one parameter too many) comes first on both problems:
+                // the weights stay what they are "along the whole history"
+                let bad: Vec<T> = vec![T::one(); inst.p + 1];
+                twin.set_params(&bad);
+                weighted.set_params(&bad);
+                rep.check("C06", weighted.has_diag_weights(), 0.0, || json!({"flavour": flav, "what": "the problem no longer carries its weights after an update that the model rejected"}));
+            }
             for &qi in order.iter().take(npts) {
                 let a: Vec<T> = inst.line.pts[qi].a.iter().map(|&v| T::of64(v as f64)).collect();
                 twin.set_params(&a);
